@@ -253,4 +253,49 @@ def c11_8(c: Ctx) -> None:
     c10_2(c)
 
 
+@ob('C11.9', 'ESC', 'nothing in execute_handler dereferences a local that can be None without a None test on the way (the helper tasks are bound to None where they are not '
+    'created): an AttributeError raised inside an except arm or in finally takes the place of the error that was about to be recorded — the result stays "started" and the '
+    'event never completes')
+def c11_9(c: Ctx) -> None:
+    u = c.unit(SVC, 'EventBus.execute_handler')
+    g = c.cfg(u)
+    maybe_none = set()
+    for n in own_nodes(u.node):
+        if isinstance(n, (ast.Assign, ast.AnnAssign)) and n.value is not None and isinstance(n.value, ast.Constant) and n.value.value is None:
+            for t in (n.targets if isinstance(n, ast.Assign) else [n.target]):
+                if isinstance(t, ast.Name):
+                    maybe_none.add(t.id)
+    if not maybe_none:
+        c.ok(where(u), 'no local of execute_handler is ever bound to None')
+        return
+    facts = Facts(lambda a: a in maybe_none, rhs_value=lambda v: 'NN' if isinstance(v, ast.Call) and call_name(v) in ('create_task', 'ensure_future') else None, cg=c.cg, unit=u)
+    n_sites = 0
+    for n in g.live_nodes():
+        if n.ast is None or n.kind not in ('stmt', 'return', 'if', 'while'):
+            continue
+        exprs = q.node_exprs(n)
+        for x in [y for e_ in exprs for y in ast.walk(e_)]:
+            if isinstance(x, ast.Attribute) and isinstance(x.value, ast.Name) and x.value.id in maybe_none and isinstance(x.ctx, ast.Load):
+                # `X is not None and X.attr` / `X and X.attr` inside one test is guarded by the short circuit
+                par = parent(x)
+                guarded_inline = False
+                while par is not None and not isinstance(par, ast.stmt):
+                    if isinstance(par, ast.BoolOp) and isinstance(par.op, ast.And):
+                        idx = next((i for i, v in enumerate(par.values) if any(z is x for z in ast.walk(v))), 0)
+                        if any(U(v) in (x.value.id, f'{x.value.id} is not None') for v in par.values[:idx]):
+                            guarded_inline = True
+                    par = parent(par)
+                if guarded_inline:
+                    continue
+                n_sites += 1
+                p = q.guard_search(g, n, f'{x.value.id} is not None', facts)
+                if p is None:
+                    c.ok(where(u, n.ast), f'`{U(x)}` only where {x.value.id} is known not to be None')
+                else:
+                    c.fail(u, f'`{U(x)[:50]}` reachable with {x.value.id} possibly None', f'{x.value.id} can be None here: the AttributeError replaces whatever was being handled (in an except arm: the handler\'s '
+                           'error is never recorded, its result stays "started", the event never completes)', node=n.ast, witness=c.path(g.entry, p))
+    if n_sites == 0:
+        c.ok(where(u), f'{sorted(maybe_none)} are never dereferenced')
+
+
 OBLIGATIONS = ob.obs
